@@ -29,8 +29,6 @@ def register(w):
         "base": "NodeTransformer",
         "visit_fn": "erase_method_form",
         "visit_fn_args": ["function_names"],
-        "visit_requires": ["opcall_kwfree(node, function_names)"],
-        "generic_requires": ["opcall_kwfree(node, function_names)"],
         "state": {},
         "closure_in_self": True,
         "closure_names": ["function_names"],
@@ -41,8 +39,7 @@ def register(w):
         "self": f"{F}::change_extension_functions_to_calls.transform_calls",
         "params": {"call_node": "py"},
         "closure": {"function_names": "list"},
-        "requires": ["isinstance(call_node, ast.Call)", "wf(call_node)",
-                     "opcall_kwfree(call_node, function_names)"],
+        "requires": ["isinstance(call_node, ast.Call)", "wf(call_node)"],
         "ensures": ["same(result, erase_method_form(call_node, function_names))"],
         "modifies": ["*"],
         "native": {"imports": "from func_adl.ast.func_adl_ast_utils import "
@@ -53,7 +50,7 @@ def register(w):
     C.register(w, {
         "key": f"{F}::change_extension_functions_to_calls",
         "params": {"a": "py", "function_names": "list"},
-        "requires": ["is_node(a)", "wf(a)", "opcall_kwfree(a, function_names)"],
+        "requires": ["is_node(a)", "wf(a)"],
         "raises": {},
         "ensures": ["same(result, erase_method_form(a, function_names))"],
         "modifies": ["*"],
